@@ -41,9 +41,8 @@ func UserFields() []ref.Field {
 		for _, n := range LongFixedOctets {
 			userFields = append(userFields, ref.Field{ID: uint16(1000 + n), Ent: UserEnt, Len: uint16(n), Type: ref.TOctets, Name: fmt.Sprintf("userFixedOctets%d", n)})
 		}
-		// a string element declared with a fixed length (the library encodes every string with a
-		// length prefix whatever its declared length; used by C16 only, never compared with the
-		// reference encoding)
+		// a string element declared with a fixed length (on the wire: exactly that many bytes, no
+		// length prefix; the pinned tree wrote a prefix all the same - defect D17, repaired)
 		FixedString = ref.Field{ID: 900, Ent: UserEnt, Len: 16, Type: ref.TString, Name: "userFixedString16"}
 		if err := registry.PutInfoElement(*entities.NewInfoElement(FixedString.Name, FixedString.ID, LibType(FixedString.Type), FixedString.Ent, FixedString.Len), UserEnt); err != nil {
 			panic(err)
